@@ -67,6 +67,7 @@ def harness(cfg, ns):
             self.files = {}
             self.opened = []
             self.dialects = []          # csv dialect parameters the code passed to writer / reader
+            self.open_options = []      # keyword options of every open() of a csv file
 
     def install_csv(ch):
         saved = (co.csv, co.__dict__.get("open"), co.float)
@@ -106,6 +107,7 @@ def harness(cfg, ns):
 
         def fake_open(path, mode="r", *a, **k):
             ch.opened.append((str(path), mode))
+            ch.open_options.append((str(path), mode, dict(k)))
             if "w" not in mode and str(path) not in ch.files:
                 raise FileNotFoundError(str(path))
             return FH(path, mode)
@@ -180,6 +182,9 @@ def harness(cfg, ns):
         wd = [d_ for k_, d_ in ch.dialects if k_ == "writer"]
         rd = [d_ for k_, d_ in ch.dialects if k_ == "reader"]
         o = [Obl("reader-and-writer-use-the-same-csv-dialect(the channel's round-trip contract)", len(wd) == 1 and len(rd) == 1 and wd[0] == rd[0], rz),
+             # the csv module only guarantees the round trip of fields holding line ends when the files are opened with newline=''
+             Obl("csv-files-opened-with-newline=''(line ends inside fields are the csv module's business)",
+                 len(ch.open_options) >= 2 and all(k.get("newline") == "" for _, _, k in ch.open_options), rz),
              Obl("one-row-per-unit", len(rows) == c.num_units, rz),
              Obl("row==(annotator,label,start,end)", all(len(r) == 4 and isinstance(r[0], str) and (r[1] is None or isinstance(r[1], str)) for r in rows), rz),
              Obl("from_csv(to_csv(c))==c", eq1 and eq2, rz),
@@ -351,7 +356,7 @@ def harness(cfg, ns):
 
 # ---------------------------------------------------------------------------------------------
 NASTY = [" lead", "trail ", "in ner", 'quo"te', "semi;colon", "com,ma", "tab\there", "unicodé-ß", "'single'", "a", " ",
-         "two\nlines", "para one\n\npara two", "top\n \t\nbottom"]
+         "two\nlines", "para one\n\npara two", "top\n \t\nbottom", "cr\rlf", "crlf\r\nx"]
 
 
 def real_checks(tier):
